@@ -413,12 +413,28 @@ func corrC03(outDir string, seed uint64, tier string, replay string) *report {
 			// ---- nthash: the UTF-16 encoding is the modelled part ----
 			{
 				s := pw
-				if i%5 == 0 {
+				switch i % 5 {
+				case 0:
 					s = "héllo € \U0001F600" + pw
+				case 1: // the edges of the planes and of the surrogate range, and invalid UTF-8
+					s = pw + "\uFFFF\uFFFE\uD7FF\uE000\U00010000\U0010FFFF\u0080\u07FF\u0800"
+				case 2:
+					s = "\xff\xfe" + pw + "\xc3\x28\xed\xa0\x80"
 				}
 				enc := ntEncode(s)
 				cmp("nthash", "encode", map[string]interface{}{"password_hex": hx([]byte(s))}, enc, "ntencode "+hx([]byte(s)))
 				if h, err := nthash.NewHash(s); err == nil {
+					// the library's own encoder: the digest NewHash wrote must be MD4 of the model's UTF-16LE text (the
+					// documented reference outside libxcrypt's domain); checked for every string, ASCII or not
+					if mt, merr := m.run("ntencode " + hx([]byte(s))); merr == nil {
+						d := md4.New()
+						d.Write(unhx(mt))
+						if want := "$3$$" + hex.EncodeToString(d.Sum(nil)); want != h {
+							rep.fail(map[string]interface{}{"scheme": "nthash", "password_hex": hx([]byte(s))}, want+" (MD4 of the UTF-16LE text of the Coq encoder model)", h,
+								"the NT hash differs from MD4 over the UTF-16LE encoding of the password")
+						}
+						rep.bump("nthash_newhash_vs_model")
+					}
 					ascii := true
 					for k := 0; k < len(s); k++ {
 						if s[k] >= 0x80 {
